@@ -7,8 +7,8 @@ for id in $ids; do
   prop=$(python3 -c "import json;print(json.load(open('seeded/$id/meta.json'))['breaks_property'])")
   props=$prop
   case $id in c01_m1) props="C06 C09";; esac   # c01_m1 needs a process crash, which C01's quantifier does not contain (see DESIGN 12)
-  if ! git -C /repo apply --check seeded/$id/patch.diff 2>/dev/null; then echo "$id $prop PATCH-DOES-NOT-APPLY"; continue; fi
-  git -C /repo apply seeded/$id/patch.diff
+  if ! git -C /repo apply --check /verif/seeded/$id/patch.diff 2>/dev/null; then echo "$id $prop PATCH-DOES-NOT-APPLY"; continue; fi
+  git -C /repo apply /verif/seeded/$id/patch.diff
   res=""
   for p in $props; do
     VERIF_BUDGET_S=${BUDGET:-40} bin/check $p quick > /tmp/sr.$id.$p.out 2>&1; rc=$?
